@@ -513,6 +513,17 @@ func translate(held Lockset, site ssa.CallInstruction, callee *ssa.Function) Loc
 		if strings.HasPrefix(base, "g:") {
 			out[k] = m
 		}
+		// a lock whose owner is not passed to the callee is still held while the callee runs:
+		// keep it under an opaque base so that class-level queries see it
+		kept := false
+		for k2 := range out {
+			if strings.HasPrefix(k2, class+"@") {
+				kept = true
+			}
+		}
+		if !kept {
+			out[class+"@outer:"+base] = m
+		}
 	}
 	return out
 }
